@@ -107,6 +107,34 @@ class FGen:
             # an edit between two queries: an element gets a new name or identifier (a value another element
             # has, had, or a fresh one); what was indexed for the old value must not answer any more
             c = [h for h in w.order if kind_of(w.handles[h]) in ("library", "definition", "instance", "port", "cable")]
+            x = r.random()
+            if c and x < 0.3:
+                # an element loses its identifier or name entry, or an element nothing is joined to leaves its parent:
+                # whatever the scope had indexed for it must stop answering (it may come back under the same value)
+                hd = w.handle_of
+                if x < 0.12:
+                    withkey = [(h, k) for h in c for k in ("EDIF.identifier", ".NAME") if k in w.handles[h]._data]
+                    if withkey:
+                        h, k = r.choice(withkey)
+                        return {"op": r.choice(["data_del", "data_pop"]), "on": h, "key": k}
+                loose = []
+                for h in c:
+                    o = w.handles[h]
+                    ko = kind_of(o)
+                    if ko == "port" and o.definition is not None and hd(o.definition) and all(
+                            q.wire is None for q in o.pins) and all(
+                            i.pins[q].wire is None for i in o.definition.references for q in o.pins if q in i.pins):
+                        loose.append(("remove_port", hd(o.definition), h))
+                    elif ko == "cable" and o.definition is not None and hd(o.definition) and all(
+                            len(wr.pins) == 0 for wr in o.wires):
+                        loose.append(("remove_cable", hd(o.definition), h))
+                    elif ko == "instance" and o.parent is not None and hd(o.parent) and all(
+                            q.wire is None for q in o.pins.values()) and o.reference is not None and \
+                            len(o.reference.children) == 0:
+                        loose.append(("remove_child", hd(o.parent), h))
+                if loose:
+                    op, on, xh = r.choice(loose)
+                    return {"op": op, "on": on, "x": xh}
             if c:
                 self.fresh = getattr(self, "fresh", 0) + 1
                 v = r.choice(NAME_POOL + NAME_POOL + ["Fresh%d" % self.fresh, "fresh%d" % self.fresh])
